@@ -96,6 +96,7 @@ type Server struct {
 	Malformed  []string // monitor: malformed frames received from rend
 	NRequests  int
 	OnRequest  func(s *Server, r *Request) // standing monitors hook
+	Refuse     func(key string) uint16     // keys the server persistently refuses with this status (0 = serve)
 	WriteCount map[string]int              // number of successful writes per key
 }
 
@@ -234,6 +235,12 @@ func (s *Server) Apply(r *Request) []byte {
 		}
 		if len(r.Value) > 1<<20 {
 			return ErrorReply(r.Op, StTooLarge, r.Opaque)
+		}
+	}
+
+	if s.Refuse != nil && r.Key != "" {
+		if st := s.Refuse(r.Key); st != 0 {
+			return ErrorReply(r.Op, st, r.Opaque)
 		}
 	}
 
